@@ -18,6 +18,7 @@ import (
 	"path/filepath"
 	"sort"
 	"sync"
+	"sync/atomic"
 	"time"
 
 	"github.com/jhalter/mobius/hotline"
@@ -318,14 +319,14 @@ func fld(id [2]byte, data []byte) hotline.Field { return hotline.NewField(id, da
 type segConn struct {
 	mu       sync.Mutex
 	cond     *sync.Cond
-	in       []byte   // bytes not yet delivered
-	segs     []int    // sizes of the next reads (cycled when exhausted; 0 = as much as asked)
+	in       []byte // bytes not yet delivered
+	segs     []int  // sizes of the next reads (cycled when exhausted; 0 = as much as asked)
 	segIdx   int
-	eof      bool     // no more input will come
+	eof      bool // no more input will come
 	closed   bool
 	writes   [][]byte // every Write call
 	onWrite  func([]byte)
-	readGate func()   // optional hook before each read returns
+	readGate func() // optional hook before each read returns
 }
 
 func newSegConn(segs []int) *segConn {
@@ -510,14 +511,27 @@ func (c *WireClient) WaitDone(d time.Duration) (error, bool) {
 	}
 }
 
+// longWaitTimeouts counts waits of a minute or more that ran out.  Such waits are deliberately huge (checks run on
+// loaded machines and never assert latencies) and never run out on code that answers at all; once a few have, the
+// code under test evidently does not answer in that situation, the failures are recorded, and the remaining
+// cases must not spend two minutes each finding the same thing: later long waits are cut to a few seconds.
+var longWaitTimeouts atomic.Int64
+
 // waitFor polls cond until it holds or the timeout elapses.
 func waitFor(d time.Duration, cond func() bool) bool {
+	long := d >= time.Minute
+	if long && longWaitTimeouts.Load() >= 3 {
+		d = 6 * time.Second
+	}
 	deadline := time.Now().Add(d)
 	for {
 		if cond() {
 			return true
 		}
 		if time.Now().After(deadline) {
+			if long {
+				longWaitTimeouts.Add(1)
+			}
 			return false
 		}
 		time.Sleep(200 * time.Microsecond)
